@@ -148,7 +148,7 @@ def run_k(kc):
     wout, dt, _b = portfolio([(b, '%s %s/w.c %s %s %s 2>&1' % (cbmc, d, sup, flags, BACKENDS[b])) for b in kc.backends], kc.timeout); res['stats']['queries'] += 1; res['stats']['solver_s'] += dt
     class _R: pass
     r = _R(); r.stdout = wout
-    if not re.search(r'K99: FAILURE', r.stdout): res['inconclusive'].append({'what': 'vacuous: the reachability witness did not fail (the assertions are not reached)'})
+    if not re.search(r'K99: FAILURE', r.stdout): res['inconclusive'].append({'what': 'vacuous: the reachability witness did not fail (the assertions are not reached)' if 'VERIFICATION' in r.stdout else 'the reachability witness twin gave no verdict (time or memory cap): non-vacuity not established', 'detail': r.stdout[-300:]})
     res['notes']['witness_twin_failed_as_required'] = 1 if re.search(r'K99: FAILURE', r.stdout) else 0
     ks = [k for k in res.get('relevant_ids', []) if re.match(r'K\d+$', k)]
     res['samples'].append({'config': kc.name, 'cbmc_properties': len(props), 'harness_assertions': ['%s %s' % (k, LABELS.get(int(k[1:]), '')) for k in ks if k != 'K99'][:6], 'unwind': kc.unwind, 'solver_s': round(res['stats']['solver_s'], 2)})
